@@ -392,6 +392,29 @@ class Recorder:
         self.stored = []
 
 
+def _module_level(tree, globs, interp):
+    """module-level helpers of the analysed file: every function is
+    interpreted by definition when called; simple module-level assignments
+    (constants, namedtuple classes) are evaluated, others are skipped"""
+    import collections
+    globs.setdefault("namedtuple", collections.namedtuple)
+    globs.setdefault("collections", Namespace(
+        "collections", namedtuple=collections.namedtuple,
+        OrderedDict=collections.OrderedDict))
+    for st in tree.body:
+        if isinstance(st, ast.FunctionDef) and st.name not in globs:
+            globs[st.name] = Func(st, globs, interp)
+    for st in tree.body:
+        if isinstance(st, ast.Assign) and len(st.targets) == 1 \
+                and isinstance(st.targets[0], ast.Name) \
+                and st.targets[0].id not in globs:
+            try:
+                globs[st.targets[0].id] = interp.ev(st.value, None, globs,
+                                                    None)
+            except (AnalysisError, ModelRaise):
+                pass
+
+
 def build_config_model(repo, mc, ml):
     """-> setitem(section, key, value) -> Recorder"""
     tree = repo.tree(CONF)
@@ -428,6 +451,7 @@ def build_config_model(repo, mc, ml):
     cls._k = bound_k
     globs["ConfigurationDict"] = cls
     globs["verify_section_key"] = Func(f_ver, globs, interp)
+    _module_level(tree, globs, interp)
 
     class Super:
         def model_getattr(self, attr):
@@ -2235,4 +2259,40 @@ MUTANTS = list(MUTANTS) + [
      ("        for sec in dfn.CFG_METADATA:\n            if sec in ds.config:",
       "        for sec in dfn.config_keys:\n            if sec in ds.config:"),
      "R11.4"),
+]
+
+# round-2 refactoring (reduced): key/value split of load_from_file moved
+# into a module-level helper that returns a namedtuple, defined below
+TWINS = list(TWINS) + [
+    ("file line split extracted into a helper returning a namedtuple", CONF,
+     [("from collections import UserDict\n",
+       "from collections import UserDict, namedtuple\n"),
+      ("            var, val = line.split(\"=\", 1)\n"
+       "            var = var.strip().lower()\n"
+       "            val = val.strip(\"' \").strip('\" ').strip()\n"
+       "            if len(val) == 0:",
+       "            var, val = _split_keyval_line(line)\n"
+       "            if len(val) == 0:"),
+      ("def keyval_str2typ(var, val):",
+       "_KeyValLine = namedtuple(\"_KeyValLine\", [\"var\", \"val\"])\n\n\n"
+       "def _split_keyval_line(line):\n"
+       "    var, val = line.split(\"=\", 1)\n"
+       "    var = var.strip().lower()\n"
+       "    val = val.strip(\"' \").strip('\" ').strip()\n"
+       "    return _KeyValLine(var=var, val=val)\n\n\n"
+       "def keyval_str2typ(var, val):")]),
+]
+MUTANTS = list(MUTANTS) + [
+    ("helper for the file line split forgets to lower-case", CONF,
+     [("            var, val = line.split(\"=\", 1)\n"
+       "            var = var.strip().lower()\n"
+       "            val = val.strip(\"' \").strip('\" ').strip()\n"
+       "            if len(val) == 0:",
+       "            var, val = _split_keyval_line(line)\n"
+       "            if len(val) == 0:"),
+      ("def keyval_str2typ(var, val):",
+       "def _split_keyval_line(line):\n"
+       "    var, val = line.split(\"=\", 1)\n"
+       "    return var.strip(), val.strip(\"' \").strip('\" ').strip()\n\n\n"
+       "def keyval_str2typ(var, val):")], "R11.4"),
 ]
